@@ -134,3 +134,103 @@ def job_broadcast(job):
                 out['samples'].append({'config': cfg, 'a_keys': list(ak), 'b_keys': list(bk), 'shape': list(shape), 'backing': backing, 'indices': [list(i) for i in idxs]})
     out['distinct'] = len(pats)
     return out
+
+
+# ------------------------------------------------------------------ C11: registered == direct
+BIN_FORMS = ['({x} * {y})', '({x} | {y})', '({x} ^ {y})', '({x} & {y})', '({x} >> {y})', '({x} @ {y})', '({x} + {y})', '({x} - {y})',
+             '{x}.gp({y})', '{x}.ip({y})', '{x}.op({y})', '{x}.rp({y})', '{x}.sw({y})', '{x}.proj({y})', '{x}.sp({y})', '{x}.lc({y})',
+             '{x}.rc({y})', '{x}.cp({y})', '{x}.acp({y})', '{x}.add({y})', '{x}.sub({y})']
+UN_FORMS = ['{x}', '(~{x})', '(-{x})', '{x}.reverse()', '{x}.involute()', '{x}.conjugate()', '{x}.normsq()', '{x}.dual()', '{x}.undual()',
+            '{x}.grade(1)', '{x}.grade(0, 2)', '{x}.grade((1, 2))', '(2 * {x})', '({x} * 3)', '({x} + 2)', '(2 + {x})', '({x} - 2)', '(2 - {x})',
+            '({x} / 2)', '({x} ** 2)', '({x} ** 3)', '({x} ** 0)', '{x}.hodge()', '{x}.unhodge()']
+PARTIAL_FORMS = ['{x}.inv()', '({x} ** -1)', '({x} ** -2)', '({x} / {y})', '{x}.div({y})', '{x}.norm()', '{x}.normalized()',
+                 '({x}.normsq()).sqrt()', '({x}.e1 * {y})', '({x}.e12 + {y})', '({y} * {x}.e21)', '({x}.e * {y})', '{x}.polarity()', '{x}.unpolarity()']
+
+
+def _mk(expr, nargs=2):
+    names = ['a', 'b', 'c'][:nargs]
+    src = f"lambda {', '.join(names)}: {expr}"
+    f = eval(src)
+    safe = ''.join(ch if ch.isalnum() else '_' for ch in expr)[:40]
+    f.__name__ = 'f_' + safe + '_' + str(abs(hash(expr)) % 100000)
+    return f
+
+
+def job_register(job):
+    rng = random.Random(job.get('seed', 0))
+    out = {'evaluations': 0, 'failures': [], 'samples': [], 'configs': 0}
+    exprs = set()
+    for cfg in job['configs']:
+        alg = make_algebra(cfg)
+        fr = O.Frame(alg)
+        out['configs'] += 1
+        todo = []
+        if cfg.get('exhaustive_depth2'):
+            for bf in BIN_FORMS:
+                for ux in UN_FORMS[:cfg.get('unary_limit', len(UN_FORMS))]:
+                    todo.append(bf.format(x=ux.format(x='a'), y='b'))
+                    todo.append(bf.format(x='a', y=ux.format(x='b')))
+                for bf2 in BIN_FORMS:
+                    todo.append(bf.format(x=bf2.format(x='a', y='b'), y='a'))
+            for pf in PARTIAL_FORMS:
+                todo.append(pf.format(x='a', y='b'))
+                todo.append(pf.format(x='(a + b)', y='b'))
+        for _ in range(cfg.get('random', 0)):
+            def gen(depth):
+                if depth == 0:
+                    return rng.choice(['a', 'b', 'c'][:cfg.get('nargs', 2)])
+                r = rng.random()
+                if r < 0.45:
+                    return rng.choice(BIN_FORMS).format(x=gen(depth - 1), y=gen(depth - 1))
+                if r < 0.85:
+                    return rng.choice(UN_FORMS).format(x=gen(depth - 1))
+                return rng.choice(PARTIAL_FORMS).format(x=gen(depth - 1), y=gen(depth - 1))
+            todo.append(gen(rng.choice([2, 3, 3, 4])))
+        if cfg.get('sample') and len(todo) > cfg['sample']:
+            todo = rng.sample(todo, cfg['sample'])
+        todo = list(cfg.get('always', [])) + todo
+        nargs = cfg.get('nargs', 2)
+        # nested registered functions
+        for expr in todo:
+            exprs.add(expr)
+            f = _mk(expr, nargs)
+            args = []
+            for _ in range(nargs):
+                ks = rand_keys(rng, alg, rng.choice(['sparse', 'perm', 'grade']))
+                if not ks:
+                    ks = (0,)
+                args.append(mv_from(alg, ks, frac_vals(rng, ks)))
+            direct = _safe(lambda: f(*args))
+            for mode in cfg.get('modes', ['numeric', 'symbolic']):
+                out['evaluations'] += 1
+                try:
+                    rf = alg.register(f, symbolic=(mode == 'symbolic'))
+                    got = ('value', rf(*args))
+                except ZeroDivisionError:
+                    got = ('raise', 'ZeroDivisionError')
+                except Exception as e:
+                    got = ('raise', type(e).__name__ + ':' + str(e)[:80])
+                if direct[0] == 'raise':
+                    continue            # f itself is outside its domain for these arguments
+                dv = direct[1]
+                from kingdon.multivector import MultiVector
+                if not isinstance(dv, MultiVector):
+                    dv = MultiVector.fromkeysvalues(alg, (0,), [dv])
+                if got[0] == 'raise':
+                    must_equal = not any(t in expr for t in cfg.get('may_raise_tokens', []))
+                    rec = {'config': cfg, 'expr': expr, 'mode': mode, 'what': 'registered function raises where f returns',
+                           'error': got[1], 'args': [showmv(a.keys(), a.values()) for a in args]}
+                    if must_equal and len(out['failures']) < 12:
+                        out['failures'].append(rec)
+                    continue
+                gv = got[1]
+                if not isinstance(gv, MultiVector):
+                    gv = MultiVector.fromkeysvalues(alg, (0,), [gv])
+                if not _mv_close(gv, dv) and len(out['failures']) < 12:
+                    out['failures'].append({'config': cfg, 'expr': expr, 'mode': mode, 'what': 'registered function returns a different multivector',
+                                            'args': [showmv(a.keys(), a.values()) for a in args],
+                                            'got': str(todict(gv))[:300], 'expected': str(todict(dv))[:300]})
+            if len(out['samples']) < 4 and rng.random() < 0.05:
+                out['samples'].append({'config': cfg, 'expr': expr, 'args': [showmv(a.keys(), a.values()) for a in args]})
+    out['distinct'] = len(exprs)
+    return out
